@@ -5,6 +5,12 @@ The REAL ``qstrader.data.daily_bar_csv.CSVDailyBarDataSource`` (constructor on g
 over an enumerated space of CSV files and query instants and compared with an independent pure-Python
 row-scan oracle (``spec_price``) written from the property statement.  Nothing here is a proof: the result
 is *bounded* (exhaustive inside the stated bound in the thorough tier, sampled in the quick tier).
+
+The date lattice is parametrised by a BASE DATE (``WINDOWS``): the same units (day indices, masks, row orders)
+and the same 59 instants relative to the base are generated for a winter window, a summer window and two
+windows holding a daylight-saving switch, because the oracle is time-zone free (14:30 / 21:00 UTC on every
+date) while a library change may not be.  Every unit / failure case carries its ``base``; a case without one
+means the winter window 2020-01-02.
 """
 import datetime as _dt
 import itertools
@@ -30,28 +36,49 @@ from qstrader.data.backtest_data_handler import BacktestDataHandler  # noqa: E40
 PROPERTY = "C06"
 
 BOUND = (
-    "Dates: the 7-day lattice 2020-01-02 (Thu) .. 2020-01-08 (Wed), which contains Sat 4 / Sun 5 (bars may sit "
-    "on any lattice day). A dataset = (set S of 0..4 lattice days, one bar each; for every bar a 3-bit mask "
-    "saying whether the Open / Close / Adj Close cell is present or empty; adjust_prices on/off); a file = a "
-    "dataset + a row permutation. Prices are fixed functions of (asset, day, column), all distinct. Query "
-    "instants: a 31-point UTC lattice = {14:29:59, 14:30:00, 20:59:59, 21:00:00} on each of the 7 lattice days "
-    "+ 2020-01-01 12:00 (before everything) + 2020-01-06 00:00 (weekend/overnight midnight) + 2020-01-09 03:00 "
-    "(after everything); every file is queried (bid and ask, source and data handler) at all 31 instants, then "
-    "again in descending order with every instant asked twice (lru_cache). THOROUGH (exhaustive, 64 568 "
-    "non-empty files x 31 instants = 2 001 608 cases, + 2 header-only files): (a) |S|<=2: every S x every mask x every row permutation x adjust on/off; (b) |S|=3: every "
-    "S x all 512 masks x adjust on/off in date order, and every S x every one of the 6 row permutations x "
-    "adjust on/off for the 46 masks with at most 2 empty cells; (c) |S|=4: every S x adjust on/off x the 79 "
-    "masks with at most 2 empty cells in date order, and every S x all 24 row permutations x adjust on/off with "
-    "all cells present. 'Extended' datasets (those with |S| + number of empty cells <= 4; 1 808 datasets "
-    "incl. the 2 header-only ones) additionally get: for every cut after the j-th bar (1<=j<|S|) a variant "
-    "with the later rows rewritten (other prices, complemented masks) and a variant with the later rows "
-    "removed; a second asset B (2 bars, first date != A's first date) loaded alone and together with A; "
-    "interleaved A/B query sequences on the two-asset source; data handlers over the source lists [A,B], "
-    "[B,A], [B,AB], [Alt,A], [A,Alt] and an unknown asset. |S|=0 (header-only file) is checked under the "
-    "separate clause 'empty-file'. QUICK: 24 fixed boundary datasets (half of them extended) + a "
-    "random.Random(seed) sample of 135 distinct datasets drawn from the thorough space (one random extra row "
-    "permutation each where the thorough tier permutes, every 5th extended where the thorough tier extends), "
-    "stopped early only if 80% of min(budget_s, 25 s) is used; not exhaustive."
+    "Dates: 7-day lattices ('windows') given by a BASE DATE, always a Thursday, so every window contains a Sat "
+    "and a Sun (bars may sit on any lattice day). Windows: W0 = 2020-01-02 .. 2020-01-08 (northern winter; the "
+    "main window), W1 = 2020-07-02 .. 07-08 (US/EU summer time), W2 = 2021-03-11 .. 03-17 (contains the US "
+    "clock change of Sun 2021-03-14), W3 = 2021-10-28 .. 11-03 (contains the EU clock change of Sun 2021-10-31, "
+    "one week before the US change of 2021-11-07). The oracle knows no time zone: a bar opens at 14:30 UTC and "
+    "closes at 21:00 UTC on every date. A dataset = (window; set S of 0..4 lattice days, one bar each; for "
+    "every bar a 3-bit mask saying whether the Open / Close / Adj Close cell is present or empty; adjust_prices "
+    "on/off); a file = a dataset + a row permutation. Prices are fixed functions of (asset, day index, column), "
+    "all distinct, Adj Close != Close in every row. Query instants: a 59-point UTC lattice per window = "
+    "{13:29:59, 13:30:00, 14:29:59, 14:30:00, 19:59:59, 20:00:00, 20:59:59, 21:00:00} (the open/close boundaries "
+    "and one hour before them) on each of the 7 lattice days + base-1d 12:00 (before everything) + base+4d "
+    "00:00 (Sun/Mon midnight) + base+7d 03:00 (after everything); every file is queried (bid and ask, source "
+    "and data handler) at all 59 instants of its window, then again in descending order with every instant "
+    "asked twice (lru_cache). "
+    "THOROUGH (exhaustive: 73 070 non-empty files x 59 instants = 4 311 130 cases, + 8 header-only files). "
+    "On W0 the full enumeration (64 568 non-empty files): (a) |S|<=2: every S x every mask x every row "
+    "permutation x adjust on/off; (b) |S|=3: every S x all 512 masks x adjust on/off in date order, and every "
+    "S x every one of the 6 row permutations x adjust on/off for the 46 masks with at most 2 empty cells; "
+    "(c) |S|=4: every S x adjust on/off x the 79 masks with at most 2 empty cells in date order, and every S x "
+    "all 24 row permutations x adjust on/off with all cells present. On each of W1, W2, W3 (2 834 non-empty "
+    "files each): the 24 fixed boundary datasets described under QUICK, complete, + a reduced enumeration: "
+    "|S| in {1, 2}, every S x every mask x adjust on/off, rows in date order, not extended. "
+    "'Extended' datasets (on W0 those with |S| + number of empty cells <= 4: 1 808 datasets incl. the 2 "
+    "header-only ones; on W1..W3 the 13 extended fixed datasets) additionally get: for every cut after the j-th "
+    "bar (1<=j<|S|) a variant with the later rows rewritten (other prices, complemented masks) and a variant "
+    "with the later rows removed; a second asset B (2 bars, first date != A's first date) loaded alone and "
+    "together with A; interleaved A/B query sequences on the two-asset source; data handlers over the source "
+    "lists [A,B], [B,A], [B,AB], [Alt,A], [A,Alt] and an unknown asset. 'Twin' datasets (on W0 every extended "
+    "dataset with at least one bar, 1 806; on W1..W3 the 2 twin fixed datasets) additionally get, under "
+    "'cache-transparent': two CSVDailyBarDataSource objects alive at once on the SAME directory (same csv_dir, "
+    "same csv_symbols) with adjust_prices False and True, (1) the unadjusted one asked at all 59 instants, then "
+    "the adjusted one, then both again in descending order, and (2) a fresh pair asked alternately instant by "
+    "instant (first asker alternating), cold then warm; each must answer exactly like a source with ITS OWN "
+    "flag living alone in its directory, and that lone source is held against the oracle for its flag. |S|=0 "
+    "(header-only file) is checked under the separate clause 'empty-file'. "
+    "QUICK (not exhaustive), in this order: (i) on W0 the 24 fixed boundary datasets = 2 header-only + 11 "
+    "hand-picked (day set, mask) pairs x adjust on/off with up to 2 row permutations each, 13 of them extended "
+    "and 2 twin; (ii) on each of W1, W2, W3 the same 11 non-empty fixed (day set, mask) pairs once each (adjust "
+    "alternating with dataset index + window number, rows in date order), one 3-bar dataset per window extended "
+    "and with one row permutation; (iii) a random.Random(seed) sample of 48 distinct datasets on W0 drawn from "
+    "the thorough W0 space (one random extra row permutation each where the thorough tier permutes, every 5th "
+    "extended where the thorough tier extends, none twin); stopped early only if 80% of min(budget_s, 25 s) is "
+    "used, which can only shorten (iii) unless budget_s is below about 13 s."
 )
 
 # --------------------------------------------------------------------------------------------------------
@@ -270,14 +297,16 @@ class _Acc(object):
         self.failures = []
         self.evaluations = 0
         self.samples = []
-        self.cap = 200
+        self.cap = 60            # failures recorded per clause (in order of occurrence), so none is crowded out
+        self._kept = {}
 
     def check(self, clause, ok, size, unit, where, observed, expected):
         c = self.clauses[clause]
         c["checked"] += 1
         if not ok:
             c["failed"] += 1
-            if len(self.failures) < self.cap:
+            if self._kept.get(clause, 0) < self.cap:
+                self._kept[clause] = self._kept.get(clause, 0) + 1
                 self.failures.append((size, {"clause": clause,
                                              "case": {"unit": unit, "where": where, "clause": clause},
                                              "observed": _j(observed), "expected": _j(expected)}))
@@ -327,13 +356,15 @@ def _b_dataset(a_first):
 # --------------------------------------------------------------------------------------------------------
 def _unit_size(unit):
     nmiss = sum(3 - sum(m) for m in unit["mask"])
-    return (len(unit["days"]), nmiss, len(unit.get("perms", [])), 1 if unit.get("ext") else 0)
+    return (len(unit["days"]), nmiss, len(unit.get("perms", [])), 1 if unit.get("ext") else 0,
+            1 if unit.get("twin") else 0)
 
 
 def eval_unit(unit, acc, base):
     """unit = {"base": ISO base date of the 7-day window (absent = winter), "days": sorted day indices,
                "mask": [[o,c,a] 0/1 per day], "adjust": bool,
-               "perms": [non-identity permutations of range(k)], "ext": bool}"""
+               "perms": [non-identity permutations of range(k)], "ext": bool,
+               "twin": bool (absent = False): also run the two-sources-on-one-directory scenario}"""
     days, masks, adjust = unit["days"], unit["mask"], bool(unit["adjust"])
     lat = lattice(_unit_base(unit))
     INSTANTS, INSTANT_STR, _TS, NI = lat.instants, lat.instant_str, lat.ts, N_INSTANTS   # of THIS window
@@ -363,7 +394,7 @@ def eval_unit(unit, acc, base):
     bar_days = set(days)
     spec = [spec_price(rows, adjust, t, lat) for t in INSTANTS]      # (value, in_range, raw_missing)
 
-    def value_checks(ans, order_tag):
+    def value_checks(ans, order_tag, spec=spec, adjust=adjust):
         for i in range(NI):
             exp, in_range, raw_missing = spec[i]
             b, a = ans[i]
@@ -424,6 +455,43 @@ def eval_unit(unit, acc, base):
         for i in range(NI):
             acc.check("row-order-independent", _eq(ans[i][0], ref[i][0]) and _eq(ans[i][1], ref[i][1]), size,
                       unit, {"step": "perm", "order": tag, "t": INSTANT_STR[i]}, ans[i], ref[i])
+
+    # ---- two live sources on the SAME directory (same csv_dir, same csv_symbols), different adjust flags ------
+    # The memo of get_bid/get_ask must not leak between them: each answers according to ITS OWN flag, i.e.
+    # like a source of that flag living alone in its directory (which is itself held against the oracle:
+    # `ref` above for the unit's flag, `ref_other` here for the other one).  Adj Close != Close in every row.
+    if unit.get("twin"):
+        other = not adjust
+        spec_other = [spec_price(rows, other, t, lat) for t in INSTANTS]
+        text = csv_text(rows, lat)
+        s_lone = _source(_write_dir(udir, "L", {"A": text}), other)
+        ref_other = _query_all(s_lone, "EQ:A", lat)
+        value_checks(ref_other, "lone-other-adjust", spec_other, other)
+        alone = {adjust: ref, other: ref_other}
+
+        def twin_check(src, flag, i, step, phase):
+            b, a = _call(src.get_bid, _TS[i], "EQ:A"), _call(src.get_ask, _TS[i], "EQ:A")
+            exp = alone[flag][i]
+            acc.evaluations += 1
+            acc.check("cache-transparent", _eq(b, exp[0]) and _eq(a, exp[1]), size, unit,
+                      {"step": step, "phase": phase, "source_adjust": flag, "t": INSTANT_STR[i]}, (b, a), exp)
+
+        # (1) the unadjusted source at every instant, then the adjusted one, then both again (warm), descending
+        d1 = _write_dir(udir, "T1", {"A": text})
+        pair = {False: _source(d1, False), True: _source(d1, True)}
+        for flag in (False, True):
+            for i in range(NI):
+                twin_check(pair[flag], flag, i, "twin-sequential", "cold")
+        for i in range(NI - 1, -1, -1):
+            for flag in (True, False):
+                twin_check(pair[flag], flag, i, "twin-sequential", "warm")
+        # (2) a fresh pair asked alternately instant by instant, the first asker alternating too
+        d2 = _write_dir(udir, "T2", {"A": text})
+        pair = {True: _source(d2, True), False: _source(d2, False)}
+        for phase, order in (("cold", range(NI)), ("warm", range(NI - 1, -1, -1))):
+            for i in order:
+                for flag in ((True, False) if i % 2 == 0 else (False, True)):
+                    twin_check(pair[flag], flag, i, "twin-interleaved", phase)
 
     if not unit.get("ext"):
         return
@@ -550,7 +618,7 @@ def winter_units():
                         perms = _nonid_perms(4) if ne == 0 else []
                     ext = k + ne <= 4
                     units.append({"base": WINTER, "days": list(S), "mask": mask, "adjust": adjust,
-                                  "perms": perms, "ext": ext})
+                                  "perms": perms, "ext": ext, "twin": ext and k > 0})
     return units
 
 
@@ -563,7 +631,7 @@ def reduced_units(base):
             for mask in _all_masks(k):
                 for adjust in (True, False):
                     units.append({"base": base, "days": list(S), "mask": mask, "adjust": adjust,
-                                  "perms": [], "ext": False})
+                                  "perms": [], "ext": False, "twin": False})
     return units
 
 
@@ -572,6 +640,9 @@ def thorough_units():
     for base in EXTRA_BASES:
         units += _fixed_units(base) + reduced_units(base)
     return units
+
+
+_TWIN_DATASETS = (2, 5)      # fixed datasets that also run the two-sources-on-one-directory scenario
 
 
 def _fixed_units(base=WINTER):
@@ -590,7 +661,7 @@ def _fixed_units(base=WINTER):
         ([3, 4, 5], [E, P, P], None),                           # a fully empty first bar
         ([5], [[1, 0, 0]], None),
     ]
-    u = [{"base": base, "days": [], "mask": [], "adjust": adj, "perms": [], "ext": True}
+    u = [{"base": base, "days": [], "mask": [], "adjust": adj, "perms": [], "ext": True, "twin": False}
          for adj in (True, False)]
     for adj in (True, False):
         for i, (days, mask, perms) in enumerate(data):
@@ -598,20 +669,23 @@ def _fixed_units(base=WINTER):
             u.append({"base": base, "days": list(days), "mask": [list(m) for m in (mask or [P] * k)],
                       "adjust": adj,
                       "perms": _nonid_perms(k)[:2] if perms is None else perms,
-                      "ext": (i + (0 if adj else 1)) % 2 == 0})     # extended on one of the two adjust twins
+                      "ext": (i + (0 if adj else 1)) % 2 == 0,      # extended on one of the two adjust twins
+                      "twin": i in _TWIN_DATASETS and adj == (i == 5)})
     return u
 
 
-N_SAMPLE = 135
+N_SAMPLE = 48
 
 
 def _light_fixed_units(base, w):
     """quick tier, extra window number w (1, 2, ..): each of the 11 non-empty fixed datasets once -- dataset i
-    with adjust on iff i + w is even, its first row permutation only, extended iff i % 4 == w % 4"""
+    with adjust on iff i + w is even, rows in date order; one 3-bar dataset per window (index 5, 6, 9 for
+    w = 1, 2, 3) is extended and also gets its first row permutation"""
     out = []
     for i, un in enumerate(x for x in _fixed_units(base) if x["days"] and x["adjust"]):
+        ext = i == (5, 6, 9)[(w - 1) % 3]
         out.append({"base": base, "days": un["days"], "mask": un["mask"], "adjust": (i + w) % 2 == 0,
-                    "perms": un["perms"][:1], "ext": i % 4 == w % 4})
+                    "perms": un["perms"][:1] if ext else [], "ext": ext, "twin": False})
     return out
 
 
@@ -638,7 +712,7 @@ def quick_units(seed, n_sample=None):
         perms = [rng.choice(allowed)] if allowed else []
         ext = (k + ne <= 4) and (n % 5 == 0)
         unit = {"base": WINTER, "days": S, "mask": mask, "adjust": rng.random() < 0.5, "perms": perms,
-                "ext": ext}
+                "ext": ext, "twin": False}
         key = _unit_key(unit)
         if key in seen:
             continue
@@ -650,7 +724,7 @@ def quick_units(seed, n_sample=None):
 
 def _unit_key(unit):
     return (_unit_base(unit), tuple(unit["days"]), tuple(tuple(m) for m in unit["mask"]), bool(unit["adjust"]),
-            tuple(tuple(p) for p in unit.get("perms", [])), bool(unit.get("ext")))
+            tuple(tuple(p) for p in unit.get("perms", [])), bool(unit.get("ext")), bool(unit.get("twin")))
 
 
 def _distinct_cases(units):
@@ -763,17 +837,27 @@ def run(tier="quick", seed=0, budget_s=60.0, jobs=1):
         "evaluations": total.evaluations,
         "distinct_nontrivial": _distinct_cases(done),
         "units": len(done),
-        "rule": ("a case = (CSV file content including row order, adjust flag, query instant); every case is "
-                 "generated from a dataset (day set, per-cell present/empty mask, adjust) and a row permutation "
-                 "and is queried on the real data source for bid and ask and compared with the row-scan oracle; "
-                 "non-trivial = the file has at least one bar (header-only files are reported under "
-                 "'empty-file' and not counted); de-duplicated on (days, masks, adjust, row order, instant). "
-                 "'evaluations' also counts the derived variant files (later rows rewritten/removed, second "
-                 "asset) per instant queried. The value clauses are overlapping views of the same comparisons: "
-                 "value-at-latest-observation = every in-range instant; open-close-boundaries = the four "
-                 "boundary instants of bar days; adjustment = adjust on; missing-cell-ffill = the latest "
-                 "observation at or before t is empty in the file; instants before the first observation are "
-                 "checked only by no-bar-before-t-gives-nan."),
+        "rule": ("a case = (CSV file content including row order and the actual dates, i.e. the 7-day window "
+                 "given by its base date, adjust flag, query instant); every case is generated from a dataset "
+                 "(base date, day set, per-cell present/empty mask, adjust) and a row permutation and is queried "
+                 "on the real data source for bid and ask at the 59 instants of its window and compared with the "
+                 "time-zone-free row-scan oracle (open 14:30 UTC, close 21:00 UTC on every date); windows: base "
+                 "2020-01-02 (winter; thorough: full enumeration, quick: 24 fixed datasets + seeded sample of "
+                 "48), bases 2020-07-02, 2021-03-11, 2021-10-28 (summer / US spring clock change / EU autumn "
+                 "clock change; thorough: 24 fixed datasets + every 1..2-bar dataset x every mask in date "
+                 "order, quick: 11 fixed datasets each); non-trivial = the file has at least one bar "
+                 "(header-only files are reported under 'empty-file' and not counted); de-duplicated on (base "
+                 "date, days, masks, adjust, row order, instant). 'evaluations' also counts the derived variant "
+                 "files (later rows rewritten/removed, second asset, lone and same-directory twin sources of "
+                 "the other adjust flag) per instant queried. The value clauses are overlapping views of the "
+                 "same comparisons: value-at-latest-observation = every in-range instant; "
+                 "open-close-boundaries = the eight probe instants of bar days (the four at the 14:30/21:00 "
+                 "boundaries and the four one hour before them); adjustment = adjust on; missing-cell-ffill = "
+                 "the latest observation at or before t is empty in the file; instants before the first "
+                 "observation are checked only by no-bar-before-t-gives-nan. cache-transparent = warm re-queries "
+                 "and interleaved two-asset queries reproduce the cold answers, and two live sources on the same "
+                 "directory with different adjust flags each answer like a lone source of their own flag. Every "
+                 "failure case carries unit.base (absent in old cases = 2020-01-02)."),
         "samples": total.samples,
         "exhaustive": bool(exhaustive),
         "clauses": total.clauses,
